@@ -50,26 +50,26 @@ func HashBytes(b []byte) uint64 {
 
 // MsgInfo describes one RPC (request and, once handled, response).
 type MsgInfo struct {
-	ID    int    `json:"id"`
-	Kind  string `json:"kind"` // AE | RV | IS
-	Src   string `json:"src"`
-	Dst   string `json:"dst"`
-	Term  uint64 `json:"term"`
-	From  string `json:"from,omitempty"` // LeaderID / CandidateID named in the request
-	Prev  uint64 `json:"prev,omitempty"` // AE prevLogIndex | RV lastLogIndex | IS lastIncludedIndex
-	PrevT uint64 `json:"prevt,omitempty"`
-	Ents  []EntryInfo `json:"ents,omitempty"`
-	Commit uint64 `json:"commit,omitempty"`
-	Prevote bool  `json:"prevote,omitempty"`
-	Offset int64  `json:"off,omitempty"`
-	Len    int    `json:"len,omitempty"`
-	Done   bool   `json:"done,omitempty"`
-	DataH  uint64 `json:"datah,omitempty"`
-	ConfH  uint64 `json:"confh,omitempty"`
-	SrcInc int    `json:"srcinc"`
-	DstInc int    `json:"dstinc,omitempty"`
-	SentSeq int   `json:"sentseq,omitempty"`
-	Dup    bool   `json:"dup,omitempty"`
+	ID      int         `json:"id"`
+	Kind    string      `json:"kind"` // AE | RV | IS
+	Src     string      `json:"src"`
+	Dst     string      `json:"dst"`
+	Term    uint64      `json:"term"`
+	From    string      `json:"from,omitempty"` // LeaderID / CandidateID named in the request
+	Prev    uint64      `json:"prev,omitempty"` // AE prevLogIndex | RV lastLogIndex | IS lastIncludedIndex
+	PrevT   uint64      `json:"prevt,omitempty"`
+	Ents    []EntryInfo `json:"ents,omitempty"`
+	Commit  uint64      `json:"commit,omitempty"`
+	Prevote bool        `json:"prevote,omitempty"`
+	Offset  int64       `json:"off,omitempty"`
+	Len     int         `json:"len,omitempty"`
+	Done    bool        `json:"done,omitempty"`
+	DataH   uint64      `json:"datah,omitempty"`
+	ConfH   uint64      `json:"confh,omitempty"`
+	SrcInc  int         `json:"srcinc"`
+	DstInc  int         `json:"dstinc,omitempty"`
+	SentSeq int         `json:"sentseq,omitempty"`
+	Dup     bool        `json:"dup,omitempty"`
 	// response
 	RTerm   uint64 `json:"rterm,omitempty"`
 	Success bool   `json:"ok,omitempty"`
@@ -149,14 +149,14 @@ type ClientInfo struct {
 	Arg     string `json:"arg,omitempty"`
 	Voter   bool   `json:"voter,omitempty"`
 	// return
-	Outcome string `json:"outcome,omitempty"` // ok | notleader | timeout | invalidlease | error:<...> | indeterminate
-	Index   uint64 `json:"index,omitempty"`
-	Term    uint64 `json:"term,omitempty"`
-	RH      uint64 `json:"rh,omitempty"` // hash of returned bytes
-	Result  int    `json:"result,omitempty"`
-	Last    uint64 `json:"last,omitempty"`
-	Conf    *ConfInfo `json:"conf,omitempty"`
-	InvokeSeq int  `json:"invoke_seq,omitempty"`
+	Outcome   string    `json:"outcome,omitempty"` // ok | notleader | timeout | invalidlease | error:<...> | indeterminate
+	Index     uint64    `json:"index,omitempty"`
+	Term      uint64    `json:"term,omitempty"`
+	RH        uint64    `json:"rh,omitempty"` // hash of returned bytes
+	Result    int       `json:"result,omitempty"`
+	Last      uint64    `json:"last,omitempty"`
+	Conf      *ConfInfo `json:"conf,omitempty"`
+	InvokeSeq int       `json:"invoke_seq,omitempty"`
 }
 
 type FaultInfo struct {
